@@ -423,8 +423,8 @@ func TestVerifC11Child(t *testing.T) {
 			parts = append(parts, obs[i])
 		}
 	}
-	fmt.Printf("OBS %s final=%s ## ops=%d overlap=%d share=%d cross=%d neighbad=%d perms=%s textkb=%d\n", strings.Join(parts, " "), final,
-		nops, overlap, share, cross, atomic.LoadInt64(&neighBad), c11Perms(lo, hi), (hi-lo)>>10)
+	fmt.Printf("OBS %s final=%s ## ops=%d overlap=%d share=%d cross=%d neighbad=%d perms=%s textkb=%d text=%x-%x\n", strings.Join(parts, " "), final,
+		nops, overlap, share, cross, atomic.LoadInt64(&neighBad), c11Perms(lo, hi), (hi-lo)>>10, lo, hi)
 }
 
 // TestVerifC11 forks one child per round (a wrong patch is a SIGSEGV; the race detector reports on stderr).
@@ -496,7 +496,11 @@ func TestVerifC11(t *testing.T) {
 			}
 			out.Put(op.Idx, "crash:%s ## races=%d raceat=%s err=%v log=%s", sig, races, raceAt, werr, strings.ReplaceAll(tail, "\n", "\\n"))
 		default:
-			out.Put(op.Idx, "%s races=%d raceat=%s", obs, races, raceAt)
+			sep := " "
+			if !strings.Contains(obs, " ## ") {
+				sep = " ## "
+			}
+			out.Put(op.Idx, "%s%sraces=%d raceat=%s", obs, sep, races, raceAt)
 		}
 	}
 }
